@@ -124,7 +124,10 @@ func (d *Deb) Package(info *nfpm.Info, deb io.Writer) (err error) { // nolint: f
 
 	debianBinary := []byte("2.0\n")
 
-	w := ar.NewWriter(deb)
+	// the ar writer drops the error of the padding byte it writes after
+	// members of odd size, so remember write errors ourselves
+	out := &errTrackingWriter{w: deb}
+	w := ar.NewWriter(out)
 	if err := w.WriteGlobalHeader(); err != nil {
 		return fmt.Errorf("cannot write ar header to deb file: %w", err)
 	}
@@ -156,7 +159,30 @@ func (d *Deb) Package(info *nfpm.Info, deb io.Writer) (err error) { // nolint: f
 		}
 	}
 
+	if out.err != nil {
+		return fmt.Errorf("cannot write deb file: %w", out.err)
+	}
+
 	return nil
+}
+
+// errTrackingWriter remembers the first error of the underlying writer and
+// refuses all writes after it.
+type errTrackingWriter struct {
+	w   io.Writer
+	err error
+}
+
+func (e *errTrackingWriter) Write(p []byte) (int, error) {
+	if e.err != nil {
+		return 0, e.err
+	}
+	n, err := e.w.Write(p)
+	if err == nil && n < len(p) {
+		err = io.ErrShortWrite
+	}
+	e.err = err
+	return n, err
 }
 
 func doSign(info *nfpm.Info, debianBinary, controlTarGz, dataTarball []byte, dataTarballName string) ([]byte, string, error) {
